@@ -337,6 +337,8 @@ class TStruct(T):
 
     def make(self, ctx, path):
         m = {}
+        if getattr(self, "feature", None):
+            ctx.requires.add(self.feature)      # the type itself only exists under this feature
         for f in self.fields:
             if f.private:
                 m[f.rust] = None
